@@ -421,7 +421,24 @@ func (c07) Run(c *Ctx, i int) CaseResult {
 			res.Fails = append(res.Fails, *hf)
 		}
 	}
-	if shapes > 0 && injectedErrs == 0 && o.Err == nil {
+	// a follow-up of the gateway's own `node` field (parent type Node) asks a service that need not own the id: `node:
+	// null` without an error is a legitimate answer there, and the code accepts it as one (ExecSeq.stripped, nodeParent)
+	nullAtNodeField := false
+	for _, f := range uniq {
+		if f.Kind == "node-null" && o.Plans != nil {
+			var walk func(steps []*gateway.QueryPlanStep)
+			walk = func(steps []*gateway.QueryPlanStep) {
+				for _, st := range steps {
+					if st.ParentType == "Node" && StepURL(st) == f.Service {
+						nullAtNodeField = true
+					}
+					walk(st.Then)
+				}
+			}
+			walk(o.Plans[0].RootStep.Then)
+		}
+	}
+	if shapes > 0 && injectedErrs == 0 && o.Err == nil && !nullAtNodeField {
 		bad("L0.errors", fmt.Sprintf("%d calls were answered with a null or malformed payload and no error is reported", shapes), obs)
 	}
 	if joinMode {
